@@ -481,3 +481,178 @@ theorem mapDefinitions_ok (d : Definitions) (h : wfDefinitions d = true) : ∃ c
   exact mapPorts_ok d _ h.1 h.2
 
 end Xs.Wsdl
+
+namespace Xs.Wsdl
+open Py
+
+/-! ## one service class per operation -/
+
+def isService (c : Cls) : Bool := c.tag == Tables.c17TagBindingOperation
+
+theorem buildEnvelopeClass_tag (d : Definitions) (bm : BMessage) (pm : PtMessage) (name style : Str)
+    (ns op : Option Str) (env : Cls) (h : buildEnvelopeClass d bm pm name style ns op = .ok env) :
+    env.tag = Tables.c17TagBindingMessage := by
+  unfold buildEnvelopeClass envelopeBase at h
+  cases hq : buildQName d.targetNamespace name with
+  | error e => simp [hq, bind, Except.bind] at h
+  | ok q =>
+    simp only [hq, bind, Except.bind, pure, Except.pure] at h
+    cases hi : extItems d pm style op bm.ext with
+    | error e => simp [hi] at h
+    | ok items =>
+      simp only [hi] at h
+      exact (addItems_sameHead _ _ _ h).2.2.2
+
+theorem mapMessage_tags (d : Definitions) (po : PtOperation) (name style : Str) (ns : Option Str) (sfx : Str)
+    (bm : BMessage) (pm? : Option PtMessage) (op : Option Str) (isOut : Bool) (r : Option Cls × Cls)
+    (h : mapMessage d po name style ns sfx bm pm? op isOut = .ok r) :
+    (flattenPair r).all (fun c => !isService c) = true := by
+  have hne1 : (Tables.c17TagBindingMessage == Tables.c17TagBindingOperation) = false := by decide
+  have hne2 : (Tables.c17TagElement == Tables.c17TagBindingOperation) = false := by decide
+  unfold mapMessage at h
+  cases pm? with
+  | none => simp at h
+  | some pm =>
+    simp only [bind, Except.bind, pure, Except.pure] at h
+    cases hm : rpcMessageClass d style pm with
+    | error e => simp [hm] at h
+    | ok msgCls =>
+      simp only [hm] at h
+      cases he : buildEnvelopeClass d bm pm (joinU name sfx) style ns op with
+      | error e => simp [he] at h
+      | ok env =>
+        simp only [he] at h
+        cases hf : withFault d po isOut env with
+        | error e => simp [hf] at h
+        | ok env' =>
+          simp only [hf, Except.ok.injEq] at h
+          subst h
+          have htag : env'.tag = Tables.c17TagBindingMessage := by
+            rw [(withFault_head _ _ _ _ _ hf).1.2.2.2]
+            exact buildEnvelopeClass_tag _ _ _ _ _ _ _ _ he
+          cases msgCls with
+          | none => simp [flattenPair, isService, htag, hne1]
+          | some m =>
+            have hmt : m.tag = Tables.c17TagElement := by
+              unfold rpcMessageClass at hm
+              by_cases hs : (style == ws!"rpc") = true
+              · simp only [hs, ↓reduceIte, Except.map] at hm
+                cases hb : buildMessageClass d pm with
+                | error e => simp [hb] at hm
+                | ok mc =>
+                  simp only [hb, Except.ok.injEq, Option.some.injEq] at hm
+                  subst hm
+                  unfold buildMessageClass at hb
+                  simp only [bind, Except.bind, pure, Except.pure] at hb
+                  cases h1 : findMessage d (splitColon pm.message).2 with
+                  | error e => simp [h1] at hb
+                  | ok dm =>
+                    simp only [h1] at hb
+                    cases h2 : buildQName (aget dm.nsMap (splitColon pm.message).1) (splitColon pm.message).2 with
+                    | error e => simp [h2] at hb
+                    | ok q =>
+                      simp only [h2] at hb
+                      cases h3 : partsAttrs dm.parts with
+                      | error e => simp [h3] at hb
+                      | ok as =>
+                        simp only [h3, Except.ok.injEq] at hb
+                        subst hb
+                        rfl
+              · have hs' : (style == ws!"rpc") = false := by simpa using hs
+                simp [hs'] at hm
+            simp [flattenPair, isService, htag, hmt, hne1, hne2]
+
+theorem mapBindingOperation_one_service (d : Definitions) (bo : BOperation) (po : PtOperation) (cfg : Dict)
+    (pt : Str) (cs : List Cls) (h : mapBindingOperation d bo po cfg pt = .ok cs) :
+    (cs.filter isService).length = 1 := by
+  obtain ⟨pairs, q, hm, _, rfl⟩ := mapBindingOperation_shape d bo po cfg pt cs h
+  obtain ⟨li, lo, rfl, h1, h2⟩ := mapMessages_shape _ _ _ _ _ _ _ hm
+  have hall : ∀ r ∈ li ++ lo, (flattenPair r).all (fun c => !isService c) = true := by
+    intro r hr
+    rcases List.mem_append.1 hr with hr | hr
+    · cases hbi : bo.input with
+      | none => rw [hbi] at h1; subst h1; cases hr
+      | some bm =>
+        rw [hbi] at h1
+        obtain ⟨r', rfl, hr'⟩ := h1
+        simp only [List.mem_singleton] at hr
+        subst hr
+        exact mapMessage_tags _ _ _ _ _ _ _ _ _ _ _ hr'
+    · cases hbo : bo.output with
+      | none => rw [hbo] at h2; subst h2; cases hr
+      | some bm =>
+        rw [hbo] at h2
+        obtain ⟨r', rfl, hr'⟩ := h2
+        simp only [List.mem_singleton] at hr
+        subst hr
+        exact mapMessage_tags _ _ _ _ _ _ _ _ _ _ _ hr'
+  have hnone : ((li ++ lo).flatMap flattenPair).filter isService = [] := by
+    rw [List.filter_eq_nil_iff]
+    intro c hc
+    obtain ⟨r, hr, hcr⟩ := List.mem_flatMap.1 hc
+    have := List.all_eq_true.1 (hall r hr) c hcr
+    simpa using this
+  rw [List.filter_append, hnone]
+  simp [serviceClass, isService, Cls.tag]
+
+theorem mapOperations_services (d : Definitions) (pt : PortType) (config : Dict) (ops : List BOperation)
+    (cs : List Cls) (h : mapOperations d pt config ops = .ok cs) : (cs.filter isService).length = ops.length := by
+  induction ops generalizing cs with
+  | nil => simp [mapOperations] at h; subst h; rfl
+  | cons o os ih =>
+    simp only [mapOperations, bind, Except.bind, pure, Except.pure] at h
+    cases h1 : findOperation pt o.name with
+    | error e => simp [h1] at h
+    | ok po =>
+      simp only [h1] at h
+      cases h2 : mapBindingOperation d o po (aupdate config (attributes o.ext)) pt.name with
+      | error e => simp [h2] at h
+      | ok c1 =>
+        simp only [h2] at h
+        cases h3 : mapOperations d pt config os with
+        | error e => simp [h3] at h
+        | ok rest =>
+          simp only [h3, Except.ok.injEq] at h
+          subst h
+          rw [List.filter_append, List.length_append, mapBindingOperation_one_service _ _ _ _ _ _ h2, ih rest h3]
+          simp [Nat.add_comm]
+
+/-- operations of the binding a port names (`0` if it names none) -/
+def portOperations (d : Definitions) (p : Port) : Nat :=
+  match d.bindings.find? (·.name == suffix p.binding) with
+  | some b => (uniqueOperations b).length
+  | none => 0
+
+theorem mapPort_services (d : Definitions) (p : Port) (cs : List Cls) (h : mapPort d p = .ok cs) :
+    (cs.filter isService).length = portOperations d p := by
+  unfold mapPort findBinding at h
+  unfold portOperations
+  cases hb : d.bindings.find? (·.name == suffix p.binding) with
+  | none => simp [hb, bind, Except.bind] at h
+  | some b =>
+    simp only [hb, bind, Except.bind] at h
+    cases hp : findPortType d (suffix b.type) with
+    | error e => simp [hp] at h
+    | ok pt =>
+      simp only [hp] at h
+      exact mapOperations_services _ _ _ _ _ h
+
+theorem mapPorts_services (d : Definitions) (ports : List Port) (cs : List Cls) (h : mapPorts d ports = .ok cs) :
+    (cs.filter isService).length = (ports.map (portOperations d)).sum := by
+  induction ports generalizing cs with
+  | nil => simp [mapPorts] at h; subst h; rfl
+  | cons p ps ih =>
+    simp only [mapPorts, bind, Except.bind, pure, Except.pure] at h
+    cases h1 : mapPort d p with
+    | error e => simp [h1] at h
+    | ok c1 =>
+      simp only [h1] at h
+      cases h2 : mapPorts d ps with
+      | error e => simp [h2] at h
+      | ok rest =>
+        simp only [h2, Except.ok.injEq] at h
+        subst h
+        rw [List.filter_append, List.length_append, mapPort_services _ _ _ h1, ih rest h2]
+        simp
+
+end Xs.Wsdl
